@@ -35,6 +35,9 @@ CHECKS = {
  "C05": dict(technique="TLA+ P-spec UThread (phase, user refs, thread's own ref, freed, exit code, per-thread TLS, due-to-destroy set) model-checked by TLC; gated thread scenarios on the real library with the handle block tracked through the user allocator table; histories validated by TLC (UThreadTrace)",
              text="Scripts force the orders that matter (creator unrefs before the thread starts, thread finished before join, join racing with exit, extra ref/unref pairs, join of detached threads); every create/start/write/exit/ref/unref/join/free/TLS event is validated: the handle block is freed exactly once and only with no reference left, join returns after the exit event with the right code and the thread's write visible, each notifier call consumes a value that was due (replaced or left at exit) and nothing due remains at the end of a scenario.",
              design_ref="3 C05", note="Trusted: " + TB + "; allocator-table tracking of the handle block; 10 s watchdogs only delay the Epoch event (a missing release then shows as a rejected Epoch)."),
+ "C06": dict(technique="TLA+ P-spec SemAbs (name generations, counters, owner rules, crash) refined by I-spec SemProto (one action per sem_* system call over a kernel namespace model, SIGKILL at any pc), proved by TLC (the pre-fix protocol is rejected); every edge of a bounded SemProto graph executed on real processes parked at link-time system-call gates; random multi-process histories, SIGKILL at every system call of new/free/acquire/release followed by the documented recovery, and concurrent k-exclusion histories validated by TLC (SemTrace)",
+             text="Histories over several names, handles and processes (with really blocking acquires) must be behaviours of SemAbs, with the kernel counter read back through the library's own descriptor after every call; crash points are enumerated at system-call granularity with a real SIGKILL and the recovery sequence must end in a fresh counter of exactly the requested value; concurrent acquirers/releasers in threads and processes must be linearizable (an acquire returning without a unit has no linearization).",
+             design_ref="3 C06", note="Trusted: " + TB + "; --wrap seams around sem_*/shm_* calls; parent-serialised children; psemaphore-sysv.c is not build-selectable here and is not checked."),
 }
 NA = {
  "C17": "pure encode/decode fidelity against the platform's inet_pton/inet_ntop over all addresses: no state, transitions or histories for a TLA+ specification to constrain (DESIGN.md section 5)",
